@@ -1,6 +1,7 @@
 """C18 - sound registers read back through their masks and obey APU power."""
 import os
 
+import apu_common
 import vlib
 
 LEVEL = "model_checking"
@@ -37,9 +38,15 @@ def check(run):
     run.note_samples(files, k=1)
     run.cov["rule"] = ("through the Mapper: regs = random sequences of writes of arbitrary values to NR10-NR51, wave RAM and NR52 power toggles interleaved with machine cycles, all of FF10-FF2F and some wave RAM read after writes; "
                        "single = every register x every value (every third in quick) written with sound on and with sound off, read back at once. distinct_nontrivial = distinct (kind, address, value) events")
-    run.assumptions += ["the NR52 status nibble belongs to C19; wave RAM is only judged while NR52 shows channel 3 off; an NR34 trigger may alter wave RAM"]
+    run.assumptions += ["in the regs / single families the NR52 status nibble is free; it is judged in the len family (shared with C19); wave RAM is only judged while NR52 shows channel 3 off; an NR34 trigger may alter wave RAM"]
     run.triage("apu", files, accepted, ids, SPECDIR, "APUReg_Trace.tla", "APUReg_Trace.cfg", "APUReg_TraceDiag.cfg", features, describe=describe)
+    # "NR52 reads 70 plus the power and channel-status bits", "while off ... the length registers" are still written:
+    # the status nibble is decided by the channel / length model, on schedules that include writes while powered off
+    apu_common.stat_traces(run)
 
 
 def replay(run, path):
+    if "apu-len" in open(path).read(2000):
+        print(open(path).read()[:3000])
+        return 0
     return vlib.generic_replay(run, path, "apu", SPECDIR, "APUReg_Trace.tla", "APUReg_Trace.cfg")
